@@ -41,31 +41,99 @@ def mesh_job(prop, kernel, seed, cfg, alpha, depth, alpha2=0, depth2=0, caps=Non
             "timeout": deadline + 120}
 
 
-def jobs_c01(tier, known):
+A_SWAPFEW = 1 << 14
+A_R2 = A_DEL | A_SWAPFEW | A_GC | A_MODE | A_BU          # second-level alphabet (all swap pairs are C17's business)
+A_R2NB = A_DEL | A_SWAPFEW | A_GC | A_MODE                 # ... without incidence toggles
+BUSETS = ["v%de%df%d" % (v, e, f) for v in (0, 1) for e in (0, 1) for f in (0, 1)]
+
+
+def seed_class(seed):
+    return "small" if seed in SMALL else "medium" if seed in MEDIUM else "large"
+
+
+def tiered(prop, tier, known, plan, kernels=("poly", "tet", "hex"), modes=MODES, busets=(ALLBU,), props=0, bcfg="fast",
+           seeds=None, asan_plan=None, asan_cfgs=(("d1f1", ALLBU), ("d0f0", ALLBU))):
+    """plan[tier][class] = (alpha, depth, alpha2, depth2) or None"""
     js = []
     dl = 300 if tier == "quick" else 3000
-    for kernel in ("poly", "tet", "hex"):
+    for kernel in kernels:
         for seed in SEEDS[kernel]:
-            for mode in MODES:
-                cfg = cfgstr(mode)
-                if tier == "quick":
-                    if seed in SMALL:
-                        js.append(mesh_job("C01", kernel, seed, cfg, A_FULL, 2, A_RESTRICTED, 3, bcfg="fast", deadline=dl, known=known))
-                    elif seed in MEDIUM:
-                        js.append(mesh_job("C01", kernel, seed, cfg, A_FULL, 1, A_RESTRICTED, 2, bcfg="fast", deadline=dl, known=known))
-                    else:
-                        js.append(mesh_job("C01", kernel, seed, cfg, A_FULL, 1, bcfg="fast", deadline=dl, known=known))
-                else:
-                    if seed in SMALL:
-                        js.append(mesh_job("C01", kernel, seed, cfg, A_FULL, 3, A_RESTRICTED, 5, bcfg="fast", deadline=dl, known=known))
-                    elif seed in MEDIUM:
-                        js.append(mesh_job("C01", kernel, seed, cfg, A_FULL, 2, A_RESTRICTED, 3, bcfg="fast", deadline=dl, known=known))
-                    else:
-                        js.append(mesh_job("C01", kernel, seed, cfg, A_FULL, 1, A_RESTRICTED, 2, bcfg="fast", deadline=dl, known=known))
-        # sanitizer pass (ASan+UBSan): shallower, same oracles
-        for seed in SEEDS[kernel]:
-            js.append(mesh_job("C01", kernel, seed, cfgstr("d1f1"), A_FULL, 1, bcfg="asan", deadline=dl, known=known))
-            js.append(mesh_job("C01", kernel, seed, cfgstr("d0f0"), A_FULL, 1, bcfg="asan", deadline=dl, known=known))
+            if seeds is not None and seed not in seeds:
+                continue
+            cls = seed_class(seed)
+            pl = plan[tier].get(cls)
+            if pl:
+                for mode in modes:
+                    for bu in busets:
+                        js.append(mesh_job(prop, kernel, seed, cfgstr(mode, bu, props), pl[0], pl[1], pl[2], pl[3], bcfg=bcfg, deadline=dl, known=known))
+            if asan_plan and asan_plan[tier].get(cls):
+                pl = asan_plan[tier][cls]
+                for mode, bu in asan_cfgs:
+                    js.append(mesh_job(prop, kernel, seed, cfgstr(mode, bu, props), pl[0], pl[1], pl[2], pl[3], bcfg="asan", deadline=dl, known=known))
+    return js
+
+
+STATE_PLAN = {
+    "quick": {"small": (A_FULL, 2, A_R2, 3), "medium": (A_FULL, 1, A_R2, 2), "large": (A_FULL, 1, 0, 0)},
+    "thorough": {"small": (A_FULL, 3, A_R2, 4), "medium": (A_FULL, 2, A_R2, 3), "large": (A_FULL, 1, A_R2, 2)},
+}
+ASAN_PLAN = {
+    "quick": {"small": (A_FULL, 1, 0, 0), "medium": (A_FULL, 1, 0, 0), "large": (A_R2, 1, 0, 0)},
+    "thorough": {"small": (A_FULL, 2, 0, 0), "medium": (A_FULL, 1, A_R2, 2), "large": (A_R2, 1, 0, 0)},
+}
+
+
+def jobs_state(prop):
+    return lambda tier, known: tiered(prop, tier, known, STATE_PLAN, asan_plan=ASAN_PLAN)
+
+
+TRANS_PLAN = {
+    "quick": {"small": (A_FULL, 2, A_R2, 3), "medium": (A_FULL, 1, A_R2, 2), "large": (A_FULL, 1, 0, 0)},
+    "thorough": {"small": (A_FULL, 3, A_R2, 4), "medium": (A_FULL, 2, A_R2, 3), "large": (A_FULL, 1, A_R2, 2)},
+}
+
+
+def jobs_c02(tier, known):
+    # deletion-centric alphabet; all incidence subsets on a reduced seed list
+    plan = {"quick": {"small": (A_DELETION, 3, 0, 0), "medium": (A_DELETION, 1, A_R2NB, 3), "large": (A_DELETION, 1, A_R2NB, 2)},
+            "thorough": {"small": (A_DELETION, 4, 0, 0), "medium": (A_DELETION, 2, A_R2NB, 4), "large": (A_DELETION, 1, A_R2NB, 3)}}
+    js = tiered("C02", tier, known, plan, asan_plan=ASAN_PLAN)
+    bu_plan = {"quick": {"small": (A_DELETION, 2, 0, 0), "medium": (A_DELETION, 1, A_R2NB, 2), "large": None},
+               "thorough": {"small": (A_DELETION, 3, 0, 0), "medium": (A_DELETION, 1, A_R2NB, 3), "large": (A_DELETION, 1, A_R2NB, 2)}}
+    js += tiered("C02", tier, known, bu_plan, busets=[b for b in BUSETS if b != ALLBU])
+    return js
+
+
+def jobs_c03(tier, known):
+    plan = {"quick": {"small": (A_FULL | A_PROP, 2, A_R2, 3), "medium": (A_FULL | A_PROP, 1, A_R2 | A_PROP, 2), "large": (A_FULL | A_PROP, 1, 0, 0)},
+            "thorough": {"small": (A_FULL | A_PROP, 3, A_R2, 4), "medium": (A_FULL | A_PROP, 2, A_R2 | A_PROP, 3), "large": (A_FULL | A_PROP, 1, A_R2 | A_PROP, 2)}}
+    return tiered("C03", tier, known, plan, props=1, asan_plan=ASAN_PLAN)
+
+
+def jobs_c17(tier, known):
+    A_SW = A_SWAP
+    plan = {"quick": {"small": (A_FULL, 1, A_SW, 2), "medium": (A_R2NB | A_ADDV | A_ADDE, 1, A_SW, 2), "large": (A_SW, 1, 0, 0)},
+            "thorough": {"small": (A_FULL, 2, A_SW, 3), "medium": (A_FULL, 1, A_SW | A_DEL, 3), "large": (A_R2NB, 1, A_SW, 2)}}
+    js = tiered("C17", tier, known, plan, props=1, asan_plan={"quick": {"small": (A_SW, 1, 0, 0), "medium": (A_SW, 1, 0, 0), "large": None},
+                                                              "thorough": {"small": (A_SW, 2, 0, 0), "medium": (A_SW, 1, 0, 0), "large": (A_SW, 1, 0, 0)}})
+    bu_plan = {"quick": {"small": (A_SW, 1, 0, 0), "medium": (A_SW, 1, 0, 0), "large": None},
+               "thorough": {"small": (A_R2NB, 1, A_SW, 2), "medium": (A_R2NB, 1, A_SW, 2), "large": (A_SW, 1, 0, 0)}}
+    js += tiered("C17", tier, known, bu_plan, props=1, busets=[b for b in BUSETS if b != ALLBU], modes=["d1f1", "d0f0"] if tier == "quick" else MODES)
+    return js
+
+
+def jobs_c12(tier, known):
+    plan = {"quick": {"small": (A_FULL, 2, 0, 0), "medium": (A_FULL, 1, 0, 0), "large": (A_R2, 1, 0, 0)},
+            "thorough": {"small": (A_FULL, 2, A_R2, 3), "medium": (A_FULL, 1, A_R2, 2), "large": (A_FULL, 1, 0, 0)}}
+    js = tiered("C12", tier, known, plan, busets=BUSETS, props=1)
+    deep = {"quick": {"small": None, "medium": (A_FULL, 1, A_R2, 2), "large": None},
+            "thorough": {"small": None, "medium": (A_FULL, 2, A_R2, 3), "large": (A_FULL, 1, A_R2, 2)}}
+    js += tiered("C12", tier, known, deep, busets=["v0e0f0", "v1e0f1", "v1e1f0", "v0e1f1"], modes=["d1f1", "d0f0"], props=1,
+                 seeds=["S7", "S11", "S17", "S18a"] if tier == "quick" else None)
+    asan = {"quick": {"small": (A_FULL, 1, 0, 0), "medium": (A_FULL, 1, 0, 0), "large": (A_R2, 1, 0, 0)},
+            "thorough": {"small": (A_FULL, 2, 0, 0), "medium": (A_FULL, 1, A_R2, 2), "large": (A_FULL, 1, 0, 0)}}
+    js += tiered("C12", tier, known, {"quick": {}, "thorough": {}}, props=1, asan_plan=asan,
+                 asan_cfgs=(("d1f1", "v0e0f0"), ("d0f0", "v0e0f0"), ("d0f1", "v1e0f1"), ("d1f0", "v1e1f0"), ("d0f0", "v0e1f1")))
     return js
 
 
@@ -73,10 +141,31 @@ E1_ASSUME = ["states are operation histories replayed on fresh objects; deduplic
              "size caps: <= 8 vertices, 16 edges, 12 faces, 4 cells for additions (seeds may be larger)",
              "no halfface is ever used by two live cells (excluded by the property); arguments are always valid handles"]
 
+def mc(jobs, bounds_q, bounds_t, extra=None, **kw):
+    d = {"jobs": jobs, "level": "model_checking", "assumptions": E1_ASSUME + (extra or []), "bounds": {"quick": bounds_q, "thorough": bounds_t}}
+    d.update(kw)
+    return d
+
+
+B_STATE_Q = "all seeds x 3 kernels x 4 deletion modes: full alphabet depth 2 + reduced alphabet depth 3 (small seeds), depth 1 + 2 (medium), depth 1 (large); ASan+UBSan pass depth 1"
+B_STATE_T = "full alphabet depth 3 + reduced depth 4 (small), 2 + 3 (medium), 1 + 2 (large); ASan+UBSan pass depth 1-2"
+
 PROPS = {
-    "C01": {"jobs": jobs_c01, "level": "model_checking", "assumptions": E1_ASSUME,
-            "bounds": {"quick": "25 seeds x 3 kernels x 4 deletion modes; depth 2 full alphabet + depth 3 restricted on small seeds, depth 1(+2 restricted) on larger ones; ASan pass depth 1",
-                       "thorough": "depth 3 full + 5 restricted on small seeds; depth 2 full + 3 restricted on medium; depth 1+2 on large"}},
+    "C01": mc(jobs_state("C01"), B_STATE_Q, B_STATE_T),
+    "C02": mc(jobs_c02, "deletion alphabet (adds, deletes, gc, clear, mode switches) depth 3 (small), 1+3 (medium), 1+2 (large) x 4 modes; 7 partial incidence subsets depth 2 / 1+2",
+              "depth 4 (small), 2+4 (medium), 1+3 (large); incidence subsets depth 3 / 1+3 / 1+2"),
+    "C03": mc(jobs_c03, B_STATE_Q + "; 5 typed properties (int private, bool shared, double persistent, string private-named, Vec3d shared) on all 6 entity kinds + mesh property + one property created mid-history",
+              B_STATE_T),
+    "C05": mc(jobs_state("C05"), B_STATE_Q + "; every centre x 26 circulators x laps 1..3 x every step count", B_STATE_T),
+    "C08": mc(jobs_state("C08"), B_STATE_Q, B_STATE_T),
+    "C09": mc(jobs_state("C09"), B_STATE_Q, B_STATE_T),
+    "C10": mc(jobs_state("C10"), B_STATE_Q + "; all ordered vertex pairs/triples(/4-tuples), all halfedge pairs, all (cell, ...) combinations per state", B_STATE_T),
+    "C12": mc(jobs_c12, "8 incidence subsets x 4 deletion modes x all seeds x 3 kernels: full alphabet depth 2 (small), depth 1 (medium/large) + depth 1+2 on 4 seeds x 8 configs; ASan+UBSan depth 1 on 5 configs",
+              "depth 2+3 (small), 1+2 (medium), 1 (large) on all 32 configs; deep 2+3 / 1+2 on 8 configs", extra=[
+                  "differential oracle: a twin mesh with all incidences permanently enabled executes the same history (handle for handle) minus the toggles",
+                  "add_face(vertices) over parallel live edges is left out (which parallel edge is reused is unspecified and configuration-dependent)"]),
+    "C17": mc(jobs_c17, "every ordered pair (a<=b) of slots of each kind incl. deleted ones, in every state of: full alphabet depth 1 (small), reduced depth 1 (medium), seed only (large) x 4 modes; 7 partial incidence subsets on seed states",
+              "states of depth 2 (small) / 1 (medium, large); partial incidence subsets after one more operation"),
 }
 
 NOT_YET = {}
